@@ -34,6 +34,8 @@ TNext ==
                         ELSE UnitsOf(Ev.t) = {Ev.u} /\ live[Ev.u].p = Ev.p /\ Ev.p = migtgt[Ev.t])
         /\ migtgt' = [migtgt EXCEPT ![Ev.t] = NoTgt] /\ UNCHANGED <<hvars, made>>)
     \/ (Is("SMove") /\ UNCHANGED <<hvars, made>> /\ UNCHANGED migtgt)
+    \* migration requests for the ULT of a main scheduler are rejected (invalid work unit)
+    \/ (Is("SchedMig") /\ Ev.r1 = 1 /\ Ev.r2 = 1 /\ UNCHANGED <<hvars, made>> /\ UNCHANGED migtgt)
     \/ (Is("Begin") /\ Begin(Ev.t) /\ UNCHANGED made /\ UNCHANGED migtgt)
     \/ (Is("Finish") /\ Finish(Ev.t) /\ UNCHANGED made /\ UNCHANGED migtgt)
     \/ (Is("UFreed") /\ Freed(Ev.t) /\ UNCHANGED made /\ UNCHANGED migtgt)
